@@ -88,13 +88,37 @@ func H_C20_purity(t *verifrt.T) {
 	p, err := CreatePath("$.a.b")
 	t.Assert("path-builds", err == nil)
 	n := t.Param("N")
-	first := t.Bytes("first", n)
-	_, err1 := p.Extract(first)
-	out, err2 := p.Extract([]byte(`{"a":{"b":1}}`))
-	ok := err2 == nil && len(out) == 1 && string(out[0]) == "1"
-	kf := verifrt.And(err1 != nil, !ok)
-	t.Known("D16-path-cursor-left-advanced-after-failed-extract", kf)
-	t.Assert("second-extract-independent-of-first", verifrt.Or(ok, kf))
-	t.Cover("first-failed", err1 != nil)
-	t.Cover("first-succeeded", err1 == nil)
+	if t.Choice("order", 2) == 0 {
+		// arbitrary first document, then a fixed (longer) one
+		first := t.Bytes("first", n)
+		_, err1 := p.Extract(first)
+		out, err2 := p.Extract([]byte(`{"a":{"b":1}}`))
+		ok := err2 == nil && len(out) == 1 && string(out[0]) == "1"
+		t.Assert("second-extract-independent-of-first", ok)
+		t.Cover("first-failed", err1 != nil)
+		t.Cover("first-succeeded", err1 == nil)
+		return
+	}
+	// a long document first, then an arbitrary SHORTER one: the reused Path must answer like a
+	// fresh Path, and what the first call returned must stay as it was
+	q, _ := CreatePath("$.a.b")
+	out1, err1 := p.Extract([]byte(`{"a":{"b":[1,2,3,4,5,6,7,8,9]}}`))
+	t.Assert("long-document-extracted", verifrt.And(err1 == nil, len(out1) == 1))
+	var keep []byte
+	if len(out1) == 1 {
+		keep = append(keep, out1[0]...)
+	}
+	second := t.Bytes("second", n)
+	same := append([]byte{}, second...)
+	outA, errA := p.Extract(second)
+	outB, errB := q.Extract(same)
+	t.Assert("reused-path-answers-like-a-fresh-one", verifrt.And((errA == nil) == (errB == nil), len(outA) == len(outB)))
+	if errA == nil && errB == nil && len(outA) == len(outB) {
+		for i := range outA {
+			t.Assert("reused-path-answers-like-a-fresh-one", verifref.BytesEq(outA[i], outB[i]))
+		}
+	}
+	if len(out1) == 1 {
+		t.Assert("earlier-result-unchanged", verifref.BytesEq(out1[0], keep))
+	}
 }
